@@ -634,4 +634,38 @@ func init() {
 		fr.i.jsonAssign(dp.Elem(), p, b.t, b.v)
 		return iface{}
 	}
+
+	// serialize.msgpackStrategy (vmihailenco/msgpack underneath): blob model, decoded
+	// only into the type that was encoded; empty input is a decoding error (EOF)
+	const mp = "(*github.com/Oneledger/protocol/serialize.msgpackStrategy)"
+	const mpEnc = 1001
+	externals[mp+".Serialize"] = func(fr *frame, args []value) value {
+		fr.i.x.stub("serialize.msgpackStrategy Serialize / Deserialize (blob model; decoded only into the type that was encoded)")
+		itf := args[1].(iface)
+		if itf.t == nil {
+			panic(abortPath{"msgpack Serialize(nil)"})
+		}
+		cp := fr.i.jsonCopy(itf.t, itf.v)
+		b := fr.i.newBlob(itf.t, cp)
+		b[0].(*blob).enc = mpEnc
+		return tuple{b, iface{}}
+	}
+	externals[mp+".Deserialize"] = func(fr *frame, args []value) value {
+		data, _ := args[1].([]value)
+		dst := args[2].(iface)
+		if len(data) == 0 {
+			return fr.i.makeError("EOF")
+		}
+		b := blobOf(data)
+		if b == nil || b.enc != mpEnc || dst.t == nil || !types.Identical(dst.t, b.t) {
+			panic(abortPath{"msgpack Deserialize of bytes not produced by msgpack Serialize of the same type"})
+		}
+		dp := dst.t.Underlying().(*types.Pointer)
+		p, _ := dst.v.(*value)
+		if p == nil {
+			panic(abortPath{"msgpack Deserialize into nil"})
+		}
+		fr.i.jsonAssign(dp.Elem(), p, b.t, b.v)
+		return iface{}
+	}
 }
